@@ -8,8 +8,13 @@ import (
 	pbssinternal "github.com/streamingfast/substreams/pb/sf/substreams/intern/v2"
 	pbsubstreamsrpc "github.com/streamingfast/substreams/pb/sf/substreams/rpc/v2"
 	pbsubstreams "github.com/streamingfast/substreams/pb/sf/substreams/v1"
+	"github.com/streamingfast/substreams/manifest"
 	"github.com/streamingfast/substreams/pipeline/cache"
+	"github.com/streamingfast/substreams/pipeline/exec"
+	"github.com/streamingfast/substreams/reqctx"
+	"github.com/streamingfast/substreams/storage/execout"
 	"github.com/streamingfast/substreams/storage/store"
+	"google.golang.org/protobuf/proto"
 	sym "github.com/streamingfast/substreams/zz_verifsym"
 	"go.uber.org/zap"
 )
@@ -116,6 +121,21 @@ func VerifC03Reorg() {
 		execOutputCache: engine,
 		blockStepMap:    map[bstream.StepType]uint64{},
 	}
+	// the store module "s" feeds the output mapper "out"; blocks below the output gate run
+	// silently (start block above the hand-off), reorgs must still revert them
+	manifest.TestUseSimpleHash = true
+	mods := &pbsubstreams.Modules{Modules: []*pbsubstreams.Module{
+		c12Store("s", 0, c12Source()), c12Map("out", 0, c12Source(), c12StoreIn("s")),
+	}, Binaries: []*pbsubstreams.Binary{{Type: "wasm/rust-v1", Content: []byte{1}}}}
+	graph, err := exec.NewOutputModuleGraph("out", true, mods, 0)
+	if err != nil {
+		sym.Unreachable("graph-ok")
+		return
+	}
+	p.execGraph = graph
+	gate := uint64(sym.Choice("gate", sym.Param("GATES", 1)))
+	ctx := reqctx.WithRequest(context.Background(), &reqctx.RequestDetails{ProductionMode: true, LinearGateBlockNum: gate, OutputModule: "out", Modules: mods})
+	executor := exec.NewStoreModuleExecutor(exec.NewBaseExecutor(ctx, "s", 0, nil, false, nil, nil, "", nil), live)
 	p.respFunc = func(anyResp substreams.ResponseFromAnyTier) error {
 		resp, ok := anyResp.(*pbsubstreamsrpc.Response)
 		if !ok {
@@ -125,6 +145,9 @@ func VerifC03Reorg() {
 		if u := resp.GetBlockUndoSignal(); u != nil {
 			undoSignals++
 			lastSignal = u.LastValidBlock
+			if gate > 0 {
+				return nil // the client model below is for streams gated at the first block
+			}
 			// client rule: drop everything above the last valid block
 			for len(client) > 0 && client[len(client)-1].height > u.LastValidBlock.Number {
 				client = client[:len(client)-1]
@@ -227,12 +250,29 @@ func VerifC03Reorg() {
 				sym.Unreachable("exec-ok")
 				return
 			}
-			mo := &pbssinternal.ModuleOutput{ModuleName: "s", Data: &pbssinternal.ModuleOutput_StoreDeltas{StoreDeltas: &pbsubstreams.StoreDeltas{StoreDeltas: live.GetDeltas()}}}
-			p.forkHandler.addReversibleOutput(mo, b.id)
-			if len(client) > 0 {
-				sym.Assert(client[len(client)-1].height < b.height, "no-two-blocks-at-same-height-without-undo")
+			// StoreModuleExecutor.wrapDeltasAndOps (mirrored; decided by C09), then the real applyExecutionResult
+			deltas := &pbsubstreams.StoreDeltas{StoreDeltas: live.GetDeltas()}
+			mo := &pbssinternal.ModuleOutput{ModuleName: "s", Data: &pbssinternal.ModuleOutput_StoreDeltas{StoreDeltas: deltas}}
+			data, err := proto.Marshal(deltas)
+			if err != nil {
+				sym.Unreachable("marshal-ok")
+				return
 			}
-			client = append(client, c03Msg{b.height, b.id})
+			buf, err := execout.NewBuffer("sf.test.Block", nil, c03Clock(b))
+			if err != nil {
+				sym.Unreachable("buffer-ok")
+				return
+			}
+			if err := p.applyExecutionResult(ctx, executor, resultObj{output: mo, bytes: data, bytesForFiles: live.ReadOps()}, buf); err != nil {
+				sym.Unreachable("apply-execution-result-ok")
+				return
+			}
+			if gate == 0 {
+				if len(client) > 0 {
+					sym.Assert(client[len(client)-1].height < b.height, "no-two-blocks-at-same-height-without-undo")
+				}
+				client = append(client, c03Msg{b.height, b.id})
+			}
 			p.stores.resetStores()
 			chain = append(chain, x.blk)
 			seen[x.blk] = true
@@ -298,7 +338,7 @@ func VerifC03Reorg() {
 			}
 		}
 		sym.Assert(live.SizeBytes() == ref0.SizeBytes(), "store-size-equals-canonical")
-		if reorgTo == -2 {
+		if reorgTo == -2 && gate == 0 {
 			sym.Assert(len(client) == len(canon), "client-holds-canonical-chain-length")
 			if len(client) == len(canon) {
 				for i, c := range canon {
